@@ -119,6 +119,35 @@ def row_values(rows):
     return arr.view(np.recarray)
 
 
+def rowwise_exact(bin_specs, var_dtype, cols, rows):
+    """True if for every numeric Bin/SparselyBin axis of this feature the float index arithmetic is exact for every
+    row, so that row-wise filling is a bit-exact specification of the content."""
+    import math
+
+    for idx, col in enumerate(cols):
+        dt = np.dtype(var_dtype[col])
+        if np.issubdtype(dt, np.bool_):
+            continue
+        s = spec_for(bin_specs, var_dtype, cols, idx)
+        for r in rows:
+            v = float(pd.Timestamp(r["t"]).value) if col == "t" else float(r[col])
+            if not math.isfinite(v):
+                continue
+            if "binWidth" in s:
+                if not A.exact_sparse_index(float(s["binWidth"]), float(s.get("origin", 0.0)), v)[1]:
+                    return False
+            elif "num" in s:
+                lo, hi = float(s["low"]), float(s["high"])
+                if lo <= v < hi and not A.exact_bin_index(int(s["num"]), lo, hi, v)[1]:
+                    return False
+    return True
+
+
+def row_dicts(rows):
+    return [{"x": float(r["x"]), "i": float(r["i"]), "b": bool(r["b"]), "t": float(pd.Timestamp(r["t"]).value)}
+            for r in rows]
+
+
 def set_partitions(n, maxblocks):
     """All partitions of range(n) into 1..maxblocks non-empty blocks."""
     def rec(i, blocks):
@@ -183,14 +212,23 @@ def check_frame(rows_idx, config, maxblocks):
             continue
         try:
             d = direct_tree(specs, vdt, f.split(":"))
-            d.fill.numpy(vals)
+            if rowwise_exact(specs, vdt, f.split(":"), rows):
+                # bit-exact specification: the documented tree filled row by row (path validated by C02)
+                for v in row_dicts(rows):
+                    d.fill(v)
+                oracle = "row-wise"
+            else:
+                # a datum sits where float index arithmetic rounds (auto-binned non-dyadic edges): only the vectorised
+                # primitive path is a fair comparison there
+                d.fill.numpy(vals)
+                oracle = "fill.numpy"
             df_ = C.diff(docs[f], d.toJson(), prune_zero=True, drop_names=True)
         except Exception as e:
             out.append(core.v_exc(PROP, "frame", "direct filling of feature kind %s raised" % kind_of(f), e, fa))
             continue
         if df_:
             out.append(core.v_diff(PROP, "frame", "feature %s (%s) differs from filling the primitive tree directly" % (
-                kind_of(f), name.split("/")[0]), df_, docs[f], fa))
+                kind_of(f), name.split("/")[0]), df_, docs[f], dict(fa, oracle=oracle)))
     if [v for v in out if "raised" not in v["sig"]]:
         return out, ncalls
     # homomorphism over every partition of the rows into chunks, re-using the returned specs
